@@ -343,7 +343,14 @@ def rule_r7(ctx):
         ctx.r.violation(rid, key_of(f, None, "no-stop-all"), "shutdown does not call set_thread_count(0)", f.loc())
 
 
-RULES = [rule_r1, rule_r2, rule_r3, rule_r4, rule_r5, rule_r6, rule_r7]
+def rule_r8(ctx):
+    """Shared with C05.R7: enqueue notifies in the lock region, idle workers re-test in a loop, a stop request wakes every idle
+    worker (notify_all) - otherwise a stop request is consumed by the wrong wake-up and a queued task is never run."""
+    from . import c05
+    c05.rule_r7(ctx, rid="C14.R8")
+
+
+RULES = [rule_r1, rule_r2, rule_r3, rule_r4, rule_r5, rule_r6, rule_r7, rule_r8]
 
 from ..selftest import M, T, V  # noqa: E402
 
